@@ -33,6 +33,10 @@ RULE = (
     "with 2/4/16 workers and switch interval 1e-5; reversed and random submission order; one score at a time, synchronous and threaded). "
     "Cross-validators and train_test_split are driven with random_state as an int, a numpy RandomState instance and None (global generator, "
     "re-seeded so that serial / delayed / respelled replays are well defined); the splits judged are those the cv object actually yielded. "
+    "Lazy-scan histories: one estimator object is reused for a parameter scan (cross_val_score(delayed=True) per value, re-configured by "
+    "set_params / attribute / its held step in between), then changed once more (re-configured, fitted, data or weights overwritten in place) "
+    "and only then are all lazy scores computed; likewise SplineCV(delayed=True) re-configured / data overwritten before scores_ are computed: "
+    "every lazy score is that of the configuration and rows in force at call time. "
     "Equivalent spellings are exercised and must agree: a metric as None / string / get_scorer / make_scorer object / plain callable; cv as a "
     "recording proxy (generator or list) or the bare scikit-learn / verde instance (splits replayed); weights None or a tuple of None; dampings "
     "/ mindists as list / tuple / ndarray of float / numpy.float64 / int / numpy.int64; delayed as True / numpy.True_ / 1; test_size / spacing "
@@ -85,6 +89,13 @@ FLOORS = {
                      "class:splinecv:engine:numpy": 1, "class:splinecv:scoring_with_weights": 2, "class:splinecv:several_mindists": 1,
                      "class:delayed_spelling:bool": 2},
                   **{"class:scoring_spelling:" + k: 4 for k in ("none", "string", "get_scorer", "make_scorer", "plain_callable")},
+                  # lazy scores consumed after the estimator / SplineCV object / data were changed
+                  **{"eval:lazy_score_is_of_call_time": 25, "class:lazy_consumed_after:cross_val_score:reconfigure": 2,
+                     "class:lazy_consumed_after:cross_val_score:fit_on_the_data": 1, "class:lazy_consumed_after:cross_val_score:data_in_place": 1,
+                     "class:lazy_consumed_after:splinecv:any_change": 2, "class:lazy_consumed_after:splinecv:set_params": 1,
+                     "class:lazy_consumed_after:splinecv:data_in_place": 1, "class:lazy_scan:reconfigured_by:set_params": 3,
+                     "class:lazy_scan:reconfigured_by:attribute": 3},
+                  **{"class:lazy_scan:estimator:" + k: 1 for k in ("spline", "trend", "knn", "chain")},
                   # kind of random_state (int | RandomState instance | None = numpy's global generator, re-seeded for the replay)
                   **{"class:random_state:tts:%s:%s" % (k, m): 4 for k in W.RS_KINDS for m in ("plain", "blocked")},
                   **{"class:random_state:cv:" + k: 5 for k in W.RS_KINDS},
@@ -110,6 +121,12 @@ FLOORS = {
         **{"class:tts_sizes:%s:%s" % (m, k): 68 for m in ("plain", "blocked") for k in W.SIZE_MODES}, **{"eval:split_sizes": 800},
         **{"class:random_state:tts:%s:%s" % (k, m): 160 for k in W.RS_KINDS for m in ("plain", "blocked")},
         **{"class:random_state:cv:" + k: 200 for k in W.RS_KINDS},
+        **{"eval:lazy_score_is_of_call_time": 600, "class:lazy_consumed_after:cross_val_score:reconfigure": 30,
+           "class:lazy_consumed_after:cross_val_score:fit_on_the_data": 25, "class:lazy_consumed_after:cross_val_score:data_in_place": 20,
+           "class:lazy_consumed_after:splinecv:any_change": 100, "class:lazy_consumed_after:splinecv:set_params": 30,
+           "class:lazy_consumed_after:splinecv:data_in_place": 25, "class:lazy_scan:reconfigured_by:set_params": 80,
+           "class:lazy_scan:reconfigured_by:attribute": 80},
+        **{"class:lazy_scan:estimator:" + k: 25 for k in ("spline", "trend", "knn", "chain")},
         # equivalent spellings and SplineCV option combinations (about 40 percent of the minimum over seeds 10 and 11)
         **{"eval:equivalent_spellings_agree": 580,
            "eval:tts_equivalent_spellings_agree": 960,
@@ -174,8 +191,8 @@ CASE_TIMEOUT_S = 300
 
 def plan(tier):
     if tier == "quick":
-        return collections.OrderedDict(cv=44, score=12, tts=10, splinecv=12, history=10)
-    return collections.OrderedDict(cv=1600, score=400, tts=400, splinecv=480, client=32, history=320)
+        return collections.OrderedDict(cv=44, score=12, tts=10, splinecv=12, history=10, lazyscan=16)
+    return collections.OrderedDict(cv=1600, score=400, tts=400, splinecv=480, client=32, history=320, lazyscan=256)
 
 
 def install(tap, run):
@@ -197,6 +214,8 @@ def run_case(run, tap, stream, index, rng):
                 W.case_tts(run, rng, vd, index)
             elif stream == "splinecv":
                 W.case_splinecv(run, rng, vd, index=index)
+            elif stream == "lazyscan":
+                W.case_lazy_scan(run, rng, vd, index)
             elif stream == "history":
                 W.case_splinecv_history(run, rng, vd, index)
             elif stream == "client":
